@@ -1,4 +1,7 @@
+#[cfg(not(may_verif))]
 use std::sync::atomic::{AtomicUsize, Ordering};
+#[cfg(may_verif)]
+use crate::verif::atomic::{AtomicUsize, Ordering};
 use std::time::Duration;
 
 // atomic duration in milli seconds
